@@ -37,6 +37,12 @@ type basmLine struct {
 	Nt   string
 }
 
+// basmVar is one ROM data variable: the declared values and the repetition count (`d 3:db a, b`).
+type basmVar struct {
+	Vals []int
+	Rep  int
+}
+
 type basmProg struct {
 	RSize       int
 	Progs       [][]basmLine // one section per processor
@@ -44,7 +50,7 @@ type basmProg struct {
 	Lbd         bool        // the label of line Epos is written before the entry directive
 	Gio         string      // machine-wide default iomode written in the bmdef line
 	AttFirst    bool        // which end of every ioatt pair is written first
-	Data        [][]int     // the ROM data words of each processor
+	Data        [][]basmVar // the ROM data variables of each processor
 	ShareCode   bool        // both processors are defined on one code section
 	Outs        [][2]uint64 // expected <<external output, value>> in order
 	AscOuts     [][2]uint64 // the stream of the as-coded interpreter (known deviations of the pinned tree)
@@ -148,7 +154,8 @@ func basmText(p basmProg) (src string, outMap []int, ok bool) {
 			case "recv":
 				fmt.Fprintf(&sb, "\tmov r%d, i0\n", l.A)
 			case "ldk":
-				fmt.Fprintf(&sb, "\tmov r%d, rom:d%d\n\tmov r%d, rom:[r%d]\n", l.B, l.T, l.A, l.B)
+				off, _ := strconv.Atoi(l.Nt)
+				fmt.Fprintf(&sb, "\tmov r%d, rom:d%d\n%s\tmov r%d, rom:[r%d]\n", l.B, l.T, strings.Repeat(fmt.Sprintf("\tinc r%d\n", l.B), off), l.A, l.B)
 			}
 		}
 		sb.WriteString("%endsection\n")
@@ -160,7 +167,15 @@ func basmText(p basmProg) (src string, outMap []int, ok bool) {
 				sb.WriteString("\tpad db 0x77\n")
 			}
 			for k, v := range p.Data[c] {
-				fmt.Fprintf(&sb, "\td%d db 0x%02x\n", k, v)
+				var vals []string
+				for _, x := range v.Vals {
+					vals = append(vals, fmt.Sprintf("0x%02x", x))
+				}
+				rep := ""
+				if v.Rep > 1 {
+					rep = strconv.Itoa(v.Rep) + ":"
+				}
+				fmt.Fprintf(&sb, "\td%d %sdb %s\n", k, rep, strings.Join(vals, ", "))
 			}
 			sb.WriteString("%endsection\n")
 		}
@@ -260,14 +275,17 @@ func genBasmProgramsData(r *evid.Run, scratch string, rsize, len0, budget, ncp, 
 	return genBasmProgramsOpt(r, scratch, rsize, len0, budget, ncp, ndata, entryAny, dirAny, macroHeavy, false, n, seed)
 }
 
+// basmGenWide: the generated data variables hold several words and repetitions (BasmSem.WideData).
+var basmGenWide bool
+
 // genBasmProgramsOpt: smallMov restricts literal loads to `mov` of numbers below 32.
 func genBasmProgramsOpt(r *evid.Run, scratch string, rsize, len0, budget, ncp, ndata int, entryAny, dirAny, macroHeavy, smallMov bool, n int, seed int64) (progs []basmProg, transitions int64, ok bool) {
 	nout := 2
-	dir := filepath.Join(scratch, fmt.Sprintf("g_%d_%d_%d_%d_%v_%v_%v_%v", rsize, len0, ncp, ndata, entryAny, dirAny, macroHeavy, smallMov))
+	dir := filepath.Join(scratch, fmt.Sprintf("g_%d_%d_%d_%d_%v_%v_%v_%v_%v", rsize, len0, ncp, ndata, entryAny, dirAny, macroHeavy, smallMov, basmGenWide))
 	os.MkdirAll(dir, 0o755)
 	up := func(b bool) string { return strings.ToUpper(fmt.Sprint(b)) }
-	cfg := fmt.Sprintf("SPECIFICATION Spec\nCONSTANTS\n RSize = %d\n Len0 = %d\n Budget = %d\n NOut = %d\n NCP = %d\n NData = %d\n EntryAnywhere = %s\n DirectiveAnywhere = %s\n MacroHeavy = %s\n SmallMovOnly = %s\nINVARIANT TypeOK\nCHECK_DEADLOCK FALSE\n",
-		rsize, len0, budget, nout, ncp, ndata, up(entryAny), up(dirAny), up(macroHeavy), up(smallMov))
+	cfg := fmt.Sprintf("SPECIFICATION Spec\nCONSTANTS\n RSize = %d\n Len0 = %d\n Budget = %d\n NOut = %d\n NCP = %d\n NData = %d\n EntryAnywhere = %s\n DirectiveAnywhere = %s\n MacroHeavy = %s\n SmallMovOnly = %s\n WideData = %s\nINVARIANT TypeOK\nCHECK_DEADLOCK FALSE\n",
+		rsize, len0, budget, nout, ncp, ndata, up(entryAny), up(dirAny), up(macroHeavy), up(smallMov), up(basmGenWide))
 	res, err := tlc.Run(tlc.Options{SpecDir: specDir, Module: "BasmSem", CfgText: cfg, Workers: 1, Timeout: 20 * time.Minute,
 		Args: []string{"-simulate", fmt.Sprintf("file=%s/b,num=%d", dir, n), "-depth", strconv.Itoa(ncp*(len0+1) + budget + 2), "-seed", strconv.FormatInt(seed, 10)}})
 	if err != nil {
@@ -291,11 +309,16 @@ func genBasmProgramsOpt(r *evid.Run, scratch string, rsize, len0, budget, ncp, n
 			Gio: tlaval.Str(last["gio"]), AttFirst: tlaval.Bool(last["attfirst"]), Steps: int(tlaval.Int(last["steps"]))}
 		p.ShareCode = tlaval.Bool(last["sharecode"])
 		for c := 0; c < ncp && ndata > 0; c++ {
-			var words []int
+			var words []basmVar
 			if dv, ok := tlaval.Get(last["data"], int64(c)); ok {
 				for k := 0; k < ndata; k++ {
 					if v, ok := tlaval.Get(dv, int64(k)); ok {
-						words = append(words, int(tlaval.Int(v)))
+						rec := tlaval.AsRec(v)
+						bv := basmVar{Rep: int(tlaval.Int(rec["rep"]))}
+						for _, x := range tlaval.AsSeq(rec["vals"]) {
+							bv.Vals = append(bv.Vals, int(tlaval.Int(x)))
+						}
+						words = append(words, bv)
 					}
 				}
 			}
@@ -362,6 +385,19 @@ func runC05(r *evid.Run) {
 		progs = append(progs, ps...)
 		transitions += tr
 	}
+	// data variables of several words, with repetitions (`d 3:db a, b`), read at every offset; programs
+	// long enough for the data words to decide the width of the ROM addresses
+	basmGenWide = true
+	for i, a := range []struct{ rsize, len0, ncp, n int }{{8, 8, 1, r.Pick(50, 400)}, {16, 12, 1, r.Pick(40, 300)}, {8, 8, 2, r.Pick(30, 300)}} {
+		ps, tr, ok := genBasmProgramsData(r, scratch, a.rsize, a.len0, 50, a.ncp, 3, false, false, i == 0, a.n, r.Seed*7+30+int64(i))
+		if !ok {
+			basmGenWide = false
+			return
+		}
+		progs = append(progs, ps...)
+		transitions += tr
+	}
+	basmGenWide = false
 	// long programs whose literals are all small `mov`s: the short load instruction the assembler
 	// chooses is narrower than the jumps
 	{
